@@ -155,6 +155,22 @@ func (ctx Ctx) Decls(fs ...NamedFile) (imports coq.ImportDecls, decls []coq.Decl
 	return
 }
 
+// packageError describes a reason to refuse a whole package as a
+// ConversionError located at n.
+func packageError(pkg *packages.Package, n ast.Node, cause error) (err error) {
+	defer func() {
+		if r := recover(); r != nil {
+			gooseErr, ok := r.(gooseError)
+			if !ok {
+				panic(r)
+			}
+			err = gooseErr.err
+		}
+	}()
+	newErrorReporter(pkg.Fset).unsupported(n, "%v", cause)
+	return cause
+}
+
 type MultipleErrors []error
 
 func (es MultipleErrors) Error() string {
@@ -218,12 +234,19 @@ func (tr TranslationConfig) translatePackage(pkg *packages.Package) (coq.File, e
 			"could not load package %v:\n%v", pkg.PkgPath,
 			pkgErrors(pkg.Errors))
 	}
+	files := sortedFiles(pkg.CompiledGoFiles, pkg.Syntax)
 	ctx, err := NewPkgCtx(pkg, tr)
 	if err != nil {
+		if len(files) > 0 {
+			// reported like any other use of something outside the subset,
+			// at the package clause
+			return coq.File{}, errors.Wrap(
+				MultipleErrors{packageError(pkg, files[0].Ast.Name, err)},
+				"conversion failed")
+		}
 		return coq.File{}, errors.Wrapf(err,
 			"could not translate package %v", pkg.PkgPath)
 	}
-	files := sortedFiles(pkg.CompiledGoFiles, pkg.Syntax)
 
 	coqFile := coq.File{
 		PkgPath:   pkg.PkgPath,
